@@ -1,5 +1,6 @@
 pub mod exec;
 pub mod gen;
+pub mod http;
 pub mod hung;
 pub mod proto;
 
